@@ -100,6 +100,87 @@ fn synthetic(bad: &mut Vec<(String, String)>, keys: &mut std::collections::HashS
     n
 }
 
+fn synth(signo: c_int, code: c_int, pid: c_int, uid: u32) -> siginfo_t {
+    let raw = RawInfo { si_signo: signo, si_errno: 0, si_code: code, _pad: 0, pid, uid, rest: [0x5A; 104] };
+    unsafe { std::mem::transmute(raw) }
+}
+
+static NESTED_BAD: AtomicU64 = AtomicU64::new(0);
+static NESTED_RUNS: AtomicU64 = AtomicU64::new(0);
+
+/// Extractions that overlap in time (several threads; a handler that interrupts an extraction on its own thread):
+/// each one must report the pid/uid of its own record.
+fn overlapping_child(fd: i32) -> i32 {
+    use crate::fork::wr;
+    let stop = std::sync::Arc::new(std::sync::atomic::AtomicBool::new(false));
+    // a handler on the extracting threads that extracts another record (SI_USER, its own pid/uid)
+    let nested = synth(libc::SIGUSR2, 0, 777_777, 888_888);
+    unsafe {
+        signal_hook_registry::register(libc::SIGUSR2, move || {
+            let o = Origin::extract(&nested);
+            NESTED_RUNS.fetch_add(1, Ordering::SeqCst);
+            if o.process.map(|p| (p.pid, p.uid)) != Some((777_777, 888_888)) {
+                NESTED_BAD.fetch_add(1, Ordering::SeqCst);
+            }
+        })
+        .expect("register");
+    }
+    let mut js = Vec::new();
+    let pths = std::sync::Arc::new(std::sync::Mutex::new(Vec::new()));
+    for t in 0..4i32 {
+        let (stop, pths) = (stop.clone(), pths.clone());
+        js.push(std::thread::spawn(move || {
+            pths.lock().unwrap().push(unsafe { libc::pthread_self() } as usize);
+            let (pid, uid) = (10_000 + t, 20_000 + t as u32);
+            // SI_USER, SI_QUEUE, SI_TKILL and a child record: all carry a process
+            let recs = [synth(libc::SIGUSR1, 0, pid, uid), synth(libc::SIGUSR1, -1, pid, uid), synth(libc::SIGUSR1, -6, pid, uid), synth(libc::SIGCHLD, 1, pid, uid)];
+            let (mut n, mut wrong) = (0u64, Vec::new());
+            while !stop.load(Ordering::Relaxed) && n < 200_000_000 {
+                let o = unsafe { Origin::extract(&recs[(n % 4) as usize]) };
+                n += 1;
+                match o.process {
+                    Some(p) if p.pid == pid && p.uid == uid => {}
+                    other => {
+                        if wrong.len() < 2 {
+                            wrong.push(format!("thread {} extracted {:?} from a record that holds pid {} uid {}", t, other, pid, uid));
+                        }
+                    }
+                }
+            }
+            (n, wrong)
+        }));
+    }
+    // paced: one thread-directed SIGUSR2 every ~40 us, round robin (standard signal: at most one pending per thread)
+    let t0 = crate::now_ms();
+    let mut sent = 0u64;
+    while crate::now_ms() - t0 < 1500 {
+        let v = pths.lock().unwrap().clone();
+        if !v.is_empty() {
+            crate::sig::kill_thread(v[(sent as usize) % v.len()] as libc::pthread_t, libc::SIGUSR2);
+            sent += 1;
+        }
+        for _ in 0..4000 {
+            std::hint::spin_loop();
+        }
+    }
+    stop.store(true, Ordering::SeqCst);
+    let mut total = 0;
+    for j in js {
+        if let Ok((n, wrong)) = j.join() {
+            total += n;
+            for w in wrong {
+                wr(fd, &format!("BAD overlap: {}\n", w));
+            }
+        }
+    }
+    if NESTED_BAD.load(Ordering::SeqCst) > 0 {
+        wr(fd, &format!("BAD overlap: {} of {} extractions done inside a handler (which interrupted an extraction on the same thread) reported a foreign pid/uid\n", NESTED_BAD.load(Ordering::SeqCst), NESTED_RUNS.load(Ordering::SeqCst)));
+    }
+    wr(fd, &format!("OVERLAP extractions={} nested={}\n", total, NESTED_RUNS.load(Ordering::SeqCst)));
+    wr(fd, "DONE\n");
+    0
+}
+
 static DUMMY: AtomicU64 = AtomicU64::new(0);
 
 #[derive(Clone, Copy, Debug)]
@@ -366,6 +447,30 @@ pub fn main(args: &[String]) -> i32 {
             }
         }
     }
+    // overlapping extractions
+    let mut overlap = (0u64, 0u64);
+    {
+        let res = fork::probe(60_000, false, overlapping_child);
+        match &res.end {
+            End::Exit(0) if res.out.contains("DONE") => {}
+            End::Timeout => inconclusive = Some("overlapping extractions timed out".into()),
+            other => bad.push(("origin-probe-died".into(), format!("overlapping extractions: child ended {:?}", other))),
+        }
+        for l in res.out.lines().filter(|l| l.starts_with("BAD overlap")) {
+            bad.push(("overlapping-extractions-mixed-up".into(), l[4..].to_string()));
+        }
+        if let Some(l) = res.out.lines().find(|l| l.starts_with("OVERLAP ")) {
+            for kv in l.split_whitespace() {
+                if let Some(v) = kv.strip_prefix("extractions=") {
+                    overlap.0 = v.parse().unwrap_or(0);
+                }
+                if let Some(v) = kv.strip_prefix("nested=") {
+                    overlap.1 = v.parse().unwrap_or(0);
+                }
+            }
+            keys.insert("overlapping-extractions".to_string());
+        }
+    }
     let mut nviol = 0;
     let mut seen = std::collections::HashSet::new();
     for (s, d) in bad.iter() {
@@ -384,6 +489,8 @@ pub fn main(args: &[String]) -> i32 {
         .set("synthetic_records", J::u(syn))
         .set("real_probes", J::u(real))
         .set("real_probes_skipped", J::u(skipped))
+        .set("overlapping_extractions", J::u(overlap.0))
+        .set("extractions_nested_in_a_handler", J::u(overlap.1))
         .set("violations", J::u(nviol))
         .set("wall_ms", J::u(crate::now_ms() - t0)));
     if nviol == 0 {
